@@ -29,4 +29,9 @@ def driverEnv (G : Graph) : Env :=
   let pts := G'.points
   { G := G', tab := hashTab pts, pts := pts }
 
+/-- the graphs of the exported network for the various numbers of variable sets, as the driver builds them for the
+`cli` requests: the exported graph itself for its own `k`, the same table with the field `k` replaced otherwise -/
+def driverNet (G : Graph) : Nat → Env :=
+  fun k' => if k' = G.k then driverEnv G else driverEnv { G with k := k' }
+
 end Hctl
